@@ -532,7 +532,18 @@ def run_family(base_spec, models, table, rec, extra_cols=None):
             spec['mu'] = mu
         if mu not in refs:
             refs[mu] = ref_spec_probs(spec, table)
-        vals = eval_spec(spec, table, extra_cols)
+        try:
+            vals = eval_spec(spec, table, extra_cols)
+        except Exception as e:  # a valid specification must evaluate: report, do not crash the harness
+            if isinstance(e, RuntimeError):
+                rec.retire = True       # engine errors are sticky (DESIGN 3.1)
+            grp = table.describe_group(0)
+            rec.violation(f'{ID}|model-raises-{type(e).__name__}|{model}|{shape_of(spec)}|{forms_tag(spec)}',
+                          f'{model} raised {type(e).__name__}: {str(e)[:300]} for a valid specification (alts {table.alts}, '
+                          f'alone={spec.get("alone")} nests={spec.get("nests")} mus={spec.get("mus")} mu={spec.get("mu")})',
+                          dict(part='spec', spec=spec, group=grp, base=grp), expected='a probability', observed=repr(e)[:300])
+            rec.case(None, ('raised', model, type(e).__name__), outcome=(model, 'raised'))
+            continue
         is_log = model in LOG_OF
         bad = check_values(spec, table, vals, refs[mu], rec, log_model=is_log)
         record_cases(spec, table, vals, bad, rec)
